@@ -9,7 +9,7 @@ TRUSTED = ['Linux file system semantics for the generated trees (real files thro
 ASSUMPTIONS = ['independent extension->type table for the extensions the generator uses (vlib/servecheck.py EXT_TYPES)',
                'cases the documented lookup does not determine (trailing slash on a file, names file-ext refuses, percent-encoded names, symlinks, '
                'directory without index but with sibling .html) are compared model-vs-code only']
-WITH_MODEL = False
+WITH_MODEL = True
 
 def build(rng, tier):
     batches = []
@@ -88,11 +88,10 @@ def run(res, tier, seed):
     batches = build(rng, tier)
     results = K.run_batches(batches, with_model=WITH_MODEL)
     judge(res, results)
-    try:
-        from props import mime_part
-        mime_part.run_part(res, rng, tier)
-    except ImportError:
-        res.notes.append('media-type sub-slice (props/mime_part.py) not present')
+    from props import mime_part
+    mlines, mmeta = mime_part.gen_lines(rng, tier)
+    mimpl, mmodel = C.run_both(mlines)
+    mime_part.judge(res, mlines, mmeta, mimpl, mmodel)
     res.rule = ('trees: nested directories, empty files, position-dependent and random binary content incl. all 256 byte values, sizes around 8191/8192/8193 and '
                 '9999/10000/10001, names with several dots / none / leading dot / non-ASCII / upper-case extension, symlink, own index.html/404.html present or not; '
                 'paths: every file, with query, fragment, both; .html fallback with and without query; near misses (extra slash, truncated, suffixed, '
